@@ -44,6 +44,8 @@ func seedFeature(r *Rec) string {
 		return ":diagram-has-import"
 	case strings.Contains(r.Pre, "*"):
 		return ":diagram-has-glob"
+	case strings.Contains(r.Pre, "_."):
+		return ":diagram-has-underscore-reference"
 	}
 	return ""
 }
